@@ -144,7 +144,24 @@ def parameter_new(E, cls, data=None, requires_grad=True):
     raise Unsupported("Parameter of non-tensor")
 
 
+def conv_forward(E, self, input, weight, bias):
+    """nn.Conv2d._conv_forward (A-TORCH-NN): F.conv2d(F.pad(input) if padding_mode != 'zeros' else input, weight, bias, stride, padding, dilation, groups)."""
+    f = self.fields
+    F = E.ext_modules["torch"].entries["nn"].entries["functional"].entries
+    if f["padding_mode"] != "zeros":
+        padded = E.call(F["pad"], [input, "reversed_padding_repeated_twice"], {"mode": f["padding_mode"]})
+        return E.call(F["conv2d"], [padded, weight, bias, f["stride"], (0, 0), f["dilation"], f["groups"]], {})
+    return E.call(F["conv2d"], [input, weight, bias, f["stride"], f["padding"], f["dilation"], f["groups"]], {})
+
+
+def module_to(E, self, *a, **k):
+    """nn.Module.to(device): parameters/buffers are moved; on the same device this is the identity (returns self)."""
+    return self
+
+
 def install(E):
+    CONV2D_CLS.ns["_conv_forward"] = Builtin("Conv2d._conv_forward", conv_forward)
+    MODULE_CLS.ns["to"] = Builtin("Module.to", module_to)
     MODULE_CLS.ns["__init__"] = Builtin("Module.__init__", module_init)
     MODULE_CLS.ns["register_buffer"] = Builtin("Module.register_buffer", register_buffer)
     LINEAR_CLS.ns["__init__"] = Builtin("Linear.__init__", linear_init)
